@@ -207,6 +207,20 @@ pub fn run_c13(scv: &Value, want_log: bool) -> RunResult {
     let mut snaps: Vec<(Uuid, Vec<u8>)> = Vec::new();
     let mut parent = Uuid::nil();
     for (i, k) in sc.versions.iter().enumerate() {
+        if i > 0 && i == sc.versions.len() / 2 && b != 2 {
+            // a second, independently constructed handle (another process, another replica)
+            // continues: nonces must stay fresh across instances that share the key
+            match open(&objects) {
+                Ok(h) => {
+                    srv = h;
+                    e.probe("second_instance", 1);
+                }
+                Err(err) => {
+                    e.v("harness", "open".into(), format!("cannot open a second handle: {err}"));
+                    return cleanup_and_finish(e, b);
+                }
+            }
+        }
         let pl = payload(*k, i);
         match call!(srv.add_version(parent, pl.clone())) {
             Ok((AddVersionResult::Ok(id), _)) => {
